@@ -1057,6 +1057,9 @@ class mulgrid(object):
                 i = self.columnlist.index(self.column[olditem])
                 self.columnlist[i].name = newitem
                 self.column[newitem] = self.column.pop(olditem)
+            # connections are keyed by column names:
+            self.connection = dict([(tuple([col.name for col in con.column]), con)
+                                    for con in self.connectionlist])
             self.setup_block_name_index()
             self.setup_block_connection_name_index()
             return True
